@@ -12,8 +12,9 @@ from harness import core, tlaval
 LEVEL = "model_checking"
 ASSUME = ["diagrams are abstracted to their shape (number of inputs; arity in/out and offset of each box): the "
           "layout code only looks at lengths and offsets (one atom 'x', boxes named by shape)",
-          "coordinates are compared exactly: x scaled by 2^(2*MaxBoxes+1), y by 4; a coordinate that is not an "
-          "integer after scaling is a machinery failure",
+          "coordinates are compared exactly: x scaled by 2^(2*MaxBoxes+1), y by 4, and by the common denominator if a "
+          "layout lies on another rational grid (the predicates only compare coordinates); irrational positions are a "
+          "machinery failure",
           "what the pictures look like (pixels, fonts) is not decided; 'renders' = Diagram.draw returns without "
           "exception for the TikZ and matplotlib (Agg) back-ends",
           "bounded: all shapes within the model constants (sampled for replay/rendering in the quick tier)"]
@@ -51,12 +52,14 @@ def observe(dm, bs, K, render, tmp):
     from discopy.cartesian import tuplify
     d, seq, sig = build(dm, bs)
     graph, pos = diagram2nx(d)
-    nodes, exact = [], True
-    for node, (px, py) in pos.items():
-        fx, fy = Fraction(px) * K, Fraction(py) * 4
-        if fx.denominator != 1 or fy.denominator != 1:
-            exact = False
-        nodes.append({"n": nid(node), "x": int(fx), "y": int(fy)})
+    # exact coordinates: x * K and y * 4 are integers for the library's own algorithm; a layout on another grid (thirds,
+    # say) is rescaled by the common denominator - the predicates of Layout.tla only compare coordinates
+    import math
+    fr = {node: (Fraction(px).limit_denominator(10 ** 6) * K, Fraction(py).limit_denominator(10 ** 6) * 4) for node, (px, py) in pos.items()}
+    mx = math.lcm(*[f[0].denominator for f in fr.values()] or [1])
+    my = math.lcm(*[f[1].denominator for f in fr.values()] or [1])
+    exact = mx * my <= 10 ** 6 and all(abs(float(fr[n][0]) - px * K) < 1e-9 and abs(float(fr[n][1]) - py * 4) < 1e-9 for n, (px, py) in pos.items())
+    nodes = [{"n": nid(node), "x": int(fx * mx), "y": int(fy * my)} for node, (fx, fy) in fr.items()]
     edges = [[nid(a), nid(b)] for a, b in graph.edges]
     rec = {"dm": dm, "bs": bs, "nodes": nodes, "edges": edges, "exact": exact, "tikz": "-", "mat": "-", "dz": "-"}
     if render:
